@@ -1,7 +1,7 @@
 // Harness API, native side: the same harness source that the engine executes symbolically is compiled natively
 // with this file; nondet values come from a replay vector, assertions and observations are logged.
 // The engine intercepts every function declared here (by name) and never executes these bodies.
-package PKGNAME
+package schema
 
 import (
 	"fmt"
@@ -238,7 +238,7 @@ func verifKeyString(v reflect.Value) string {
 }
 
 func verifFlatten(prefix string, v reflect.Value, depth int, top bool, emit func(name, val string)) {
-	if depth > 40 {
+	if depth > 12 {
 		emit(prefix, "<deep>")
 		return
 	}
